@@ -388,8 +388,12 @@ def gen_db_structural(rng, idx, shared_break=False):
     structural = []
     if has_pseudo:
         brks = [r for r in yml["structure"]["cn_regions"]]
+        # the outermost regions of the gene are legal break points too (rank 0: a left fusion there keeps the whole gene and loses the
+        # whole pseudogene; a right fusion there the reverse)
+        regs_ = list(next(iter(yml["structure"]["regions"].values())).keys())
+        outer = [r for r in (regs_[0], regs_[-1]) if r not in brks]
         for _ in range(rng.choice([0, 1, 2, 3])):
-            brk = rng.choice(brks)
+            brk = rng.choice(outer) if (outer and rng.random() < 0.25) else rng.choice(brks)
             kind = rng.choice(["left", "left", "right"])
             muts = [["GENP", brk + ("-" if kind == "left" else rng.choice(["+", ""]))]]
             if rng.random() < 0.4 and fun:
